@@ -28,6 +28,8 @@ DELIMS = [("=", "=", "="), (":", ":", ":"), ("spaces", " \t\x0c\n\r\x0b", " "), 
 
 
 def contents(rng, fid, shape, dch, multiline=False):
+    if rng.chance(0.08):
+        return []          # a file without any entry (empty, or everything commented out) is still a consulted file
     ents = _contents(rng, fid, shape, dch)
     if multiline:
         for e in ents:
@@ -97,6 +99,8 @@ def tree_of(world):
             # comment lines (every character of the comment set is used) in front of lines that are not continuation lines
             r = Rng(world["comment_seed"] + k)
             out_lines = []
+            if not n.get("entries"):
+                out_lines.append("%s everything is commented out" % r.pick(world["comment"]))
             for line in c.split("\n"):
                 if line and line[0] not in " \t" and r.chance(0.35):
                     out_lines.append("%s note %d" % (r.pick(world["comment"]), len(out_lines)))
